@@ -103,8 +103,12 @@ where
         let range = self.max - self.min;
         let f_range = f * range;
         if f_range < diff_mode_min {
+            #[cfg(rand_distr_verif)]
+            crate::verif_hooks::probe(73);
             self.min + (f_range * diff_mode_min).sqrt()
         } else {
+            #[cfg(rand_distr_verif)]
+            crate::verif_hooks::probe(74);
             self.max - ((range - f_range) * (self.max - self.mode)).sqrt()
         }
     }
